@@ -90,7 +90,7 @@ func discharge(o *Obligation, dir string, secs int, wantModel bool) {
 	decided := false
 	var outs []solveOut
 	if os.Getenv("GOVC_NO_STAGE1") == "" {
-		s1 := 4
+		s1 := 4 * loadFactor()
 		if secs < s1 {
 			s1 = secs
 		}
